@@ -559,8 +559,9 @@ LZ_INV = ["TypeOK", "XWellFormed", "XContent", "XSizeLimit", "XMembersFull", "XS
 
 
 def lz_consts(variant=None, **kw):
-    c = dict(Dicts="{4096,5000,65536,70000}", LimitOpts="{0,3000,6000,80000}", WriteSizes="{2500,6000,90000}", MaxBytes="180000", MaxCalls="3", MaxFiles="1",
-             MaxMembers="6", CSizes="{7}", Fars="{FALSE,TRUE}", DictByteRoundsUp=ASBUILT["DictByteRoundsUp"])
+    # (one huge write against a small member limit needs many members: 90000 / 4096 = 22)
+    c = dict(Dicts="{4096,5000,65536,70000}", LimitOpts="{0,3000,6000,80000}", WriteSizes="{2500,6000,20000,90000}", MaxBytes="180000", MaxCalls="3", MaxFiles="1",
+             MaxMembers="24", CSizes="{7}", Fars="{FALSE,TRUE}", DictByteRoundsUp=ASBUILT["DictByteRoundsUp"])
     if variant:
         c.update(variant)
     c.update({k: str(v) for k, v in kw.items()})
@@ -667,8 +668,8 @@ def family_lzip(ctx, j, quick, rnd, pool, cap=None):
     t0 = time.time()
     f_design = pool.submit(lz_model, lz_consts(), LZ_INV, 2)
     f_export = pool.submit(lz_model, lz_consts(Dicts="{4096,4608,5000,65536,70000,131072}" if quick else "{4096,4097,4608,4609,5000,65536,70000,98304,131072}",
-                                               WriteSizes="{2500,6000,90000}" if quick else "{1,2500,6000,70000,90000}",
-                                               MaxBytes="180000" if quick else "200000", MaxCalls="3" if quick else "4", MaxMembers="8"), ["ExportL"], 2, 900, False)
+                                               WriteSizes="{2500,6000,20000,90000}" if quick else "{1,2500,6000,20000,70000,90000}",
+                                               MaxBytes="180000" if quick else "200000", MaxCalls="3" if quick else "4", MaxMembers="24"), ["ExportL"], 2, 900, False)
     probes = []
     val, what = REGRESSIONS["DictByteRoundsUp"]
     if ASBUILT["DictByteRoundsUp"] != val:
